@@ -176,7 +176,18 @@ def clause_multienv(cases, ctx: Ctx):
     return out
 
 
-CLAUSES = {"recurrence": clause_recurrence, "noninterference": clause_noninterference, "multienv": clause_multienv}
+def clause_streams(cases, ctx: Ctx):
+    """The same real iterations judged against the reference collector, whose episode ends come from the MDP tables and the clocks -
+    NOT from the buffer's own `dones` (clause multienv re-derives GAE from the stored flags, so a collector that stores wrong flags
+    - e.g. leaves a truncation-only end unflagged - would pass it): stored episode-end flags and the advantages / returns cut at the
+    TRUE episode ends."""
+    from mc.props.c04 import clause_collect
+
+    keep = ("/gae/", "/row/done", "/reward/bootstrap")
+    return [(i, s.replace("C04/", "C03/stream/"), m) for (i, s, m) in clause_collect(cases, ctx) if any(k in s for k in keep)]
+
+
+CLAUSES = {"recurrence": clause_recurrence, "noninterference": clause_noninterference, "multienv": clause_multienv, "streams": clause_streams}
 
 
 def explore(ctx: Ctx):
@@ -219,5 +230,6 @@ def explore(ctx: Ctx):
                 for k in keys:
                     multi.append(dict(tab, algo="PPO", script=sc, num_envs=E, num_steps=4, key=k, gamma=0.5, lam=0.25))
     ctx.run("multienv", multi)
-    ctx.require("noninterference-cases", "multienv-different-done-patterns")
+    ctx.run("streams", multi[:: (1 if thorough else 2)] + [dict(c, algo=a) for c in multi[::7] for a in ("A2C", "REINFORCE")])
+    ctx.require("noninterference-cases", "multienv-different-done-patterns", "trunc_only", "term_only")
     ctx.notes["Tmax"] = Tmax
